@@ -47,7 +47,7 @@ MANIFEST_TEXT = {
         level="Serpent (key length symbolic 16..=32, both unroll variants), Twofish (16/24/32) and CAST-256 (five key sizes) == their specifications for all keys and blocks: leaf lemmas (bitsliced S-box circuits, linear transform, q-boxes/MDS/RS/h/g, quads/octave) + wiring with the leaves uninterpreted.",
         note=BASE, technique=TECH),
     "C09": dict(
-        level="Blowfish / BlowfishLE: round function leaf, data path and round trips on arbitrary P/S (quick), key expansion for key lengths 0..=57 under a lockstep stub on the inner encrypt (thorough).  IDEA: multiplication and inverse leaves, key expansion, data path, all keys (quick).  XTEA: direct conformance, all keys and blocks (quick).  RC2: data path on an arbitrary round-key state, constructor wiring, key expansion for every effective length T1 of stated ranges with fixed keys (the effective-length mask is data independent).  CAST5, compositionally (DESIGN 10.2 item 17: the shadow copy gives the round-function macros and the S-box look-ups a function boundary, their text unchanged): tables S1..S8, the three round-function bodies for all arguments, both block functions on arbitrary 12- and 16-round states, the half key schedule for all 2^128 running values, constructor wiring (padding, 12/16-round flag).  NOT decided by a finished query: RC2 key expansion for symbolic keys (DESIGN 10.5); its oracle is validated natively against all repository vectors.",
+        level="Blowfish / BlowfishLE: round function leaf, data path and round trips on arbitrary P/S (quick), key expansion for key lengths 0..=57 under a lockstep stub on the inner encrypt (thorough).  IDEA: multiplication and inverse leaves, key expansion, data path, all keys (quick).  XTEA: direct conformance, all keys and blocks (quick).  RC2: data path on an arbitrary round-key state, constructor wiring, key expansion for every effective length T1 of stated ranges with fixed keys (the effective-length mask is data independent) and for ALL key bytes at six (key length, effective length) pairs with the table abstracted by position-paired look-ups (DESIGN 10.2 item 18).  CAST5, compositionally (DESIGN 10.2 item 17: the shadow copy gives the round-function macros and the S-box look-ups a function boundary, their text unchanged): tables S1..S8, the three round-function bodies for all arguments, both block functions on arbitrary 12- and 16-round states, the half key schedule for all 2^128 running values, constructor wiring (padding, 12/16-round flag).  NOT decided by a finished query: RC2 key expansion with key length, key bytes and effective length all symbolic at once (DESIGN 10.5); its oracle is validated natively against all repository vectors.",
         note=BASE + " Blowfish's 521 chained self-modifying encryptions are decided under the call-indexed abstraction (DESIGN 2.3).",
         technique=TECH),
     "C10": dict(
